@@ -263,6 +263,13 @@ class Model:
             return float('inf')
         if path in ('numpy.e', 'math.e'):
             return math.e
+        if path.startswith('sys.float_info.'):
+            import sys
+            v = getattr(sys.float_info, path.split('.')[-1], None)
+            if isinstance(v, int | float):
+                return v
+        if path == 'sys.maxsize':
+            return 2 ** 63 - 1
         return ExtRef(path)
 
     CONSTS = {
@@ -527,6 +534,7 @@ class Model:
         if attr in DIM_ATTRS:
             if v.taint and attr in ('size', 'shape', 'sizes'):
                 interp.event('shape-of-tainted', node, attr=attr, stmt=_text(node))
+                return Opaque(f'{attr} of variable', shape_of_events=True)
             return Opaque(f'{attr} of variable')
         if attr in ('coords', 'masks', 'attrs', 'meta', 'deprecated_attrs'):
             return BoundModel(v, attr)
@@ -778,8 +786,26 @@ class Model:
             if name_ in _FINFO:
                 import types
                 return types.SimpleNamespace(**_FINFO[name_])
+        if path in ('numpy.isclose', 'math.isclose') and len(args) >= 2 and any(isinstance(a, SVar) for a in args[:2]):
+            # closeness of bare numbers: an uninterpreted predicate of the two numbers and the tolerances (numpy's defaults are
+            # absolute 1e-8 and relative 1e-5 whatever unit the numbers are expressed in)
+            x, y = self.lift(interp, args[0]), self.lift(interp, args[1])
+            t = None
+            if isinstance(x.term, Rat) and isinstance(y.term, Rat):
+                tol = []
+                for key, pos in (('rtol', 2), ('atol', 3)):
+                    v = kwargs.get(key, args[pos] if len(args) > pos else None)
+                    tol.append(v.term if isinstance(v, SVar) and isinstance(v.term, Rat) else (Rat.const(v) if isinstance(v, int | float) else Rat.sym('default_tolerance')))
+                t = Rat.fn('isclose', x.term, y.term, *tol)
+            r = self.new(interp, t, DIMENSIONLESS, 'bool', x.taint or y.taint, x.why or y.why)
+            r.kind = 'raw'
+            if isinstance(args[0], SVar):
+                r.members.update({k: v for k, v in args[0].members.items() if k in ('is_array', 'dims')})
+            return r
         if mod in ('math', 'numpy'):
             return self._math(interp, mod, name, args, kwargs, node)
+        if path == 'scipp.Variable' and 'dims' in kwargs:
+            return self.sc_array(interp, args, kwargs, node)  # the constructor: dims, values, variances, unit, dtype
         if path == 'uuid.uuid4':
             return Opaque('uuid')
         if path in ('copy.deepcopy', 'copy.copy'):
@@ -964,6 +990,29 @@ class Model:
     sc_zeros = sc_ones = sc_empty = lambda self, interp, args, kwargs, node: self.new(  # noqa: E731
         interp, None, self._unit_arg(interp, kwargs.get('unit', _DEFAULT_UNIT), node),
         norm_dtype(kwargs.get('dtype')) or 'float64', why='filled array')
+
+    def sc_zeros_like(self, interp, args, kwargs, node):
+        x = args[0] if args else kwargs.get('obj')
+        if isinstance(x, SVar):
+            return self.new(interp, Rat.const(0), x.unit, x.dtype)  # same shape, unit and dtype; not an alias of x
+        return Opaque('zeros_like(⊤)')
+
+    def sc_ones_like(self, interp, args, kwargs, node):
+        x = args[0] if args else kwargs.get('obj')
+        if isinstance(x, SVar):
+            return self.new(interp, (x.unit.scale() if x.unit is not None else Rat.const(1)), x.unit, x.dtype)
+        return Opaque('ones_like(⊤)')
+
+    def sc_full_like(self, interp, args, kwargs, node):
+        x = args[0] if args else kwargs.get('obj')
+        val = args[1] if len(args) > 1 else kwargs.get('value')
+        if isinstance(x, SVar):
+            if isinstance(val, int | float) and not isinstance(val, bool) and x.unit is not None:
+                return self.new(interp, Rat.const(val) * x.unit.scale(), x.unit, x.dtype)
+            if isinstance(val, SVar):
+                return self.new(interp, val.term, x.unit, x.dtype, val.taint)
+            return self.new(interp, None, x.unit, x.dtype, why='filled array')
+        return Opaque('full_like(⊤)')
 
     def sc_arange(self, interp, args, kwargs, node):
         unit = self._unit_arg(interp, kwargs.get('unit'), node)
